@@ -3,6 +3,7 @@
   For every block cipher; `Lawful` (enc/dec inverse on 16-byte blocks, 16-byte outputs) only where decryption is involved.
 -/
 import LW.Proofs.CryptoSpec
+import LW.Proofs.JoinAcceptRT
 namespace LW.C04
 open LW Outcome
 
@@ -64,5 +65,12 @@ theorem C04_ja_sizes (ja : JoinAccept) (b : Bytes) (h : ja.enc = ok b) :
             cases MacRT.ok_inj hl
             simp [zeros]
         simp [this]
+
+/-- the whole round trip at the library's own level: EncryptJoinAcceptPayload followed by DecryptJoinAcceptPayload with the same key
+gives back the frame — payload decoded to the same JoinAcceptPayload (CFList absent or canonical), MIC restored -/
+theorem C04_ja_encrypt_decrypt (E : BlockCipher) (hE : E.Lawful) (key : Bytes) (p q : PHY) (ja : JoinAccept)
+    (hp : p.payload = some (.joinAccept ja)) (hcf : ∀ l, ja.cfList = some l → FrameRT.cfListCanonical l = true) (hm : p.mic.length = 4)
+    (henc : p.encryptJA E key = ok q) : q.decryptJA E key = ok p :=
+  FrameRT.ja_encrypt_decrypt E hE key p q ja hp hcf hm henc
 
 end LW.C04
